@@ -5,12 +5,16 @@
 (* allows (RFC 3501 latitude included) in the state reached so far, and    *)
 (* the probes taken after the step (LIST "" *, LSUB "" *, STATUS of every  *)
 (* name of interest) are answers allowed in the state after it.            *)
+(* One run judges the executions of ONE store (CONSTANT Store; Dev = the   *)
+(* deviations known for that store).                                       *)
 (* Outcomes of named deviations (Dev) are accepted too but recorded in     *)
 (* `used`; the smallest `used` over all accepting runs is reported, the    *)
 (* check turns each name in it into a known-finding signature.             *)
 (*                                                                         *)
 (* Event (JSON): op, a, b (names / reference+pattern as arrays of tokens), *)
-(*   ok (tagged OK), bad (anything but OK/NO), n (messages, STATUS/SELECT),*)
+(*   ok (tagged OK), bad (anything but OK/NO), bye (no tagged answer but    *)
+(*   "* BYE" and the connection closed: only a deviation answers so),      *)
+(*   n (messages, STATUS/SELECT),                                          *)
 (*   ents (LIST/LSUB answer: [{n: name, ns: \Noselect}]),                  *)
 (*   hp (probes present), pl, ps (probe answers), st ([{n, ok, m}]).       *)
 (***************************************************************************)
@@ -49,7 +53,8 @@ EntsOK(v, ents) ==
   /\ \A x \in ToSet(ents) : (x.n \in v.nosel => x.ns) /\ (x.n \in v.sel => ~x.ns)
 
 ObsOK(r, ev) ==
-  /\ ~ev.bad
+  /\ ev.bye = r.bye
+  /\ ~r.bye => ~ev.bad
   /\ r.ok = ev.ok
   /\ (ev.op \in {"status", "select"} /\ r.ok) => r.n = ev.n
   /\ ev.op \in {"list", "lsub"} => EntsOK(r, ev.ents)
